@@ -957,6 +957,10 @@ def call(I, run, fn: Value, args: List[Value], kwargs: Dict[str, Value], node) -
         name = f"{I.describe(run, recv)}.{mname}"
         if name in cfg.stubs:
             return cfg.stubs[name](I, run, args, kwargs, node)
+        for dyn in cfg.dyn_stubs:
+            st = dyn(name)
+            if st is not None:
+                return st(I, run, [recv] + list(args), kwargs, node)
         k = run.kind_of(recv)
         if k in ("str", "bytes", "strlist") or (isinstance(recv, App) and recv.op in ("each",)):
             return str_method(I, run, recv, mname, args, kwargs, node)
